@@ -453,7 +453,7 @@ NODE_CONSUMED_BY_PARENT: Dict[str, str] = {
 }
 
 
-def _macro_availability(P: Program, rep: Report, cg) -> None:  # noqa: C901
+def _macro_availability(P: Program, rep: Report, cg, rule: str = "R32.4") -> None:  # noqa: C901
     eq = P.func(f"{EXEC}.execute_queries")
     # (1) what execute_queries adds to the closure, and under which conditions
     init_calls = [n for n in ast.walk(eq.node) if isinstance(n, ast.Call) and getattr(n.func, "id", "") == "initialize_time_types"]
@@ -461,7 +461,7 @@ def _macro_availability(P: Program, rep: Report, cg) -> None:  # noqa: C901
         raise AnalysisError("execute_queries: exactly one initialize_time_types(...) call expected")
     frag_kw = {k.arg: k.value for k in init_calls[0].keywords}.get("sql_fragments")
     if frag_kw is None:
-        rep.instance("R32.4", "all-macros-installed", sample="initialize_time_types is called without a fragment list: every macro is installed")
+        rep.instance(rule, "all-macros-installed", sample="initialize_time_types is called without a fragment list: every macro is installed")
         return
     if not isinstance(frag_kw, ast.Name):
         raise AnalysisError("execute_queries: sql_fragments is not a local list variable")
@@ -507,20 +507,20 @@ def _macro_availability(P: Program, rep: Report, cg) -> None:  # noqa: C901
         raise AnalysisError("apply_time_period_representation is no longer reached from fetch_result")
     for member, mname in sorted(rm.items()):
         uses.append((mname, "fetch", th.rel, ar.node.lineno, f"{ar.qualname} (_REPR_MACRO[{member}])"))
-    rep.floor("R32.4 macro use sites outside the transpiled queries", len(uses), 5)
+    rep.floor(f"{rule} macro use sites outside the transpiled queries", len(uses), 5)
     ALLOWED = {"fetch": {"output_datasets", "output_scalars", "time_period_output_format"}, "load": {"input_datasets", "path_dict", "dataframe_dict"}}
     STEP_TXT = {"fetch": "while a RESULT is fetched", "load": "while an INPUT is loaded"}
     for mname, step, file, line, where in uses:
         my_sites = [(m_, l_) for n_, m_, l_ in sites if n_ == mname]
-        rep.instance("R32.4", f"{step}/{mname}/{where.split('.')[-1][:40]}", sample={"macro": mname, "used by": where, "added under conditions on": [sorted(m_) for m_, _l in my_sites]})
+        rep.instance(rule, f"{step}/{mname}/{where.split('.')[-1][:40]}", sample={"macro": mname, "used by": where, "added under conditions on": [sorted(m_) for m_, _l in my_sites]})
         if not my_sites:
-            rep.add(Finding("R32.4", f"R32.4/not-installed/{mname}", eq.module.rel, init_calls[0].lineno, eq.qualname,
+            rep.add(Finding(rule, f"{rule}/not-installed/{mname}", eq.module.rel, init_calls[0].lineno, eq.qualname,
                             f"macro {mname} is called {STEP_TXT[step]} ({where}) but execute_queries never adds it to the installed closure: a script whose statements do not mention it "
                             f"fails with a raw CatalogException"))
             continue
         if not any(m_ <= ALLOWED[step] for m_, _l in my_sites):
             m_, l_ = my_sites[0]
-            rep.add(Finding("R32.4", f"R32.4/wrong-condition/{mname}", eq.module.rel, l_, eq.qualname,
+            rep.add(Finding(rule, f"{rule}/wrong-condition/{mname}", eq.module.rel, l_, eq.qualname,
                             f"macro {mname} is called {STEP_TXT[step]} ({where}) but is only installed under a condition on {sorted(m_ - ALLOWED[step])}: "
                             + ("a result can have a time column that no input has (cast(…, time_period), time_agg, period literals), and then the fetch-time UPDATE fails with a raw CatalogException"
                                if step == "fetch" else "an input with a time column is then normalised with a macro that was not installed")))
@@ -533,9 +533,9 @@ def _macro_availability(P: Program, rep: Report, cg) -> None:  # noqa: C901
         enum_vals = _enum_values(P, "vtlengine.Model.TimePeriodRepresentation") if hasattr(P, "classes") else {}
         for member, mname in sorted(rm.items()):
             fmt = enum_vals.get(member)
-            rep.instance("R32.4", f"table/{member}", sample={"format": fmt, "fetch uses": mname, "installed": table.get(fmt)})
+            rep.instance(rule, f"table/{member}", sample={"format": fmt, "fetch uses": mname, "installed": table.get(fmt)})
             if fmt is not None and table.get(fmt) != mname:
-                rep.add(Finding("R32.4", f"R32.4/table/{member}", eq.module.rel, eq.node.lineno, eq.qualname,
+                rep.add(Finding(rule, f"{rule}/table/{member}", eq.module.rel, eq.node.lineno, eq.qualname,
                                 f"output format {fmt!r}: the fetch step calls {mname} but execute_queries installs {table.get(fmt)!r} for it"))
 
 
